@@ -88,6 +88,9 @@ func (f *Subtract) Call(s *slip.Scope, args slip.List, depth int) (dif slip.Obje
 		case slip.Complex:
 			dif = slip.Complex(complex128(dif.(slip.Complex)) - complex128(ta))
 		}
+		if rat, ok := dif.(*slip.Ratio); ok {
+			dif = canonicalRational((*big.Rat)(rat))
+		}
 	}
 	return
 }
